@@ -18,6 +18,11 @@ NOTES = {
  "C19-2b": "first run of C19 missed it (one call per client object in the scripted part); C19 gained call sequences on one client object with a check that earlier results still read the same",
  "C20-2b": "first run of C20 missed it (clients were built with explicit arguments and an empty configuration file); C20 gained clients configured from generated configuration files with canary passwords next to INI metacharacters",
  "C13-2b": "first run ended in a harness error (the fixture store could not be built: destroy-then-register is part of the build); C13 now records the complete build history and judges it as a case",
+ "C04-2b": "first run of C04 missed it (one operation per request; C08 caught it); C04 histories gained batches with a set-of-possible-states model",
+ "C06-2b": "first run of C06 missed it (one wrapped Get per request; C05 caught it); C06 wrapping cases gained batch shapes (wrapped Get twice / followed by a committing item and a plain Get)",
+ "C08-2a": "first run of C08 missed it (no failing CreateKeyPair whose private template is refused when applied; C09 caught it); the C08 pool gained poisoned creators for every template position",
+ "C09-2b": "first run of C09 missed it (crash points at SQL-statement granularity cannot fall inside SQLite's commit); C09 gained SIGKILL at every write-class system call on the database files via strace",
+ "C11-2b": "first run of C11 missed it (engine-level differential has no session; C12 caught it); C11 gained session pairs over one KmipSession",
  "C11-2a": "a concurrency change: invisible to C11's sequential differential by nature, caught by C10 (schedules)",
  "C13-2a": "a concurrency change: invisible to C13's sequential grid by nature, caught by C10 (schedules)",
  "C16-2b": "a concurrency change: invisible to C16's sequential tables by nature, caught by C10 (schedules)",
